@@ -111,17 +111,7 @@ func checkMatchDispatch(r *Run, prog *Program, a *Anchors, pfx string) {
 			arms[c.Name()][sc.name] = info
 			ps := NewPathSim(prog)
 			var getErrSym, mErrSym *Sym
-			ps.Inline = func(callee *ssa.Function) bool {
-				if !prog.InModule(callee) || callee == a.GetValue || callee == a.GetOpts || callee == a.EqTable || callee == a.CoerceTab {
-					return false
-				}
-				for _, m := range a.Matchers {
-					if m == callee {
-						return false
-					}
-				}
-				return callee.Signature.Recv() == nil
-			}
+			ps.Inline = func(callee *ssa.Function) bool { return bexprHelper(prog, a, callee) }
 			ps.Seed = func(st *pstate) { st.eqc[opKey] = constKey(c) }
 			ps.Model = func(ev *Event) *Sym {
 				if ev.Callee == a.GetValue {
@@ -178,7 +168,7 @@ func checkMatchDispatch(r *Run, prog *Program, a *Anchors, pfx string) {
 					okB := b.K == sCall
 					if okB {
 						call, _ := b.V.(*ssa.Call)
-						callee := call.Call.StaticCallee()
+						callee, _ := calleeOfSym(b)
 						okB = callee != nil && callee.Name() == "NotPresentDisposition" && len(call.Call.Args) == 1
 						if okB {
 							// receiver must be this expression's operator
@@ -218,7 +208,7 @@ func checkMatchDispatch(r *Run, prog *Program, a *Anchors, pfx string) {
 						}
 						info.callee, info.args = ev.Callee.Name(), strings.Join(as, ",")
 						if len(ev.Args) < 1 || ev.Args[0].Key() != pExpr.Key() {
-							problems = append(problems, "the matcher is not given this expression")
+							problems = append(problems, "the matcher is not given this expression but "+info.args)
 						}
 						want := sc.m
 						bv, okc := b.BoolConst()
@@ -350,10 +340,17 @@ func checkErrFalse(r *Run, prog *Program, a *Anchors, pfx string) {
 		}
 	}
 	r.Floor(pfx+".error-comes-with-false", 30)
-	for _, fn := range sortedFuncs(set) {
-		r.Analysed(fn.String())
+	type res struct {
+		key, pos, why string
+		ok            bool
+	}
+	// A helper whose every caller is a static call from a function of the set is judged in the context of its callers
+	// (interpreted in place) when it cannot be judged on its own: what it forwards or negates is then known.
+	inlined := map[*ssa.Function]bool{}
+	analyse := func(fn *ssa.Function) (out []res, bad bool) {
 		ps := NewPathSim(prog)
 		ps.Havoc = true
+		ps.Inline = func(c *ssa.Function) bool { return inlined[c] || (bexprHelper(prog, a, c) && !set[c]) }
 		sums := ps.Run(fn)
 		seen := map[string]bool{}
 		for _, sm := range sums {
@@ -377,7 +374,7 @@ func checkErrFalse(r *Run, prog *Program, a *Anchors, pfx string) {
 				ok = true
 			case b.K == sRes && e.K == sRes && b.A == e.A && b.Idx == 0 && e.Idx == 1 && b.A.K == sCall:
 				call := b.A.V.(*ssa.Call)
-				callee := call.Call.StaticCallee()
+				callee, _ := calleeOfSym(b.A)
 				if callee != nil && (set[callee] || callee == fn) {
 					ok = true
 				} else {
@@ -391,10 +388,43 @@ func checkErrFalse(r *Run, prog *Program, a *Anchors, pfx string) {
 				continue
 			}
 			seen[id] = true
-			r.Check(pfx+".error-comes-with-false", key, prog.pos(sm.Ret.Pos()), ok, why+" [path "+strings.Join(sm.St.trail, " ")+"]")
+			if !ok {
+				bad = true
+			}
+			out = append(out, res{key, prog.pos(sm.Ret.Pos()), why + " [path " + strings.Join(sm.St.trail, " ") + "]", ok})
 		}
 		if ps.Truncated > 0 {
 			r.Note("%s: %d paths cut by the loop bound (each return is still reached with every fact combination of two iterations)", fn.Name(), ps.Truncated)
+		}
+		return
+	}
+	results := map[*ssa.Function][]res{}
+	todo := sortedFuncs(set)
+	for round := 0; round < 3 && len(todo) > 0; round++ {
+		var again []*ssa.Function
+		for _, fn := range todo {
+			if inlined[fn] {
+				continue
+			}
+			out, bad := analyse(fn)
+			results[fn] = out
+			if bad && prog.contextOnly(fn, func(c *ssa.Function) bool { return set[c] }) {
+				inlined[fn] = true
+				delete(results, fn)
+				for _, c := range prog.staticCallers(fn) {
+					again = append(again, c)
+				}
+			}
+		}
+		todo = again
+	}
+	for _, fn := range sortedFuncs(set) {
+		r.Analysed(fn.String())
+		if inlined[fn] {
+			r.Note("%s: judged in the context of its callers (interpreted in place)", fn.Name())
+		}
+		for _, x := range results[fn] {
+			r.Check(pfx+".error-comes-with-false", x.key, x.pos, x.ok, x.why)
 		}
 	}
 }
